@@ -51,7 +51,7 @@ Expect(pre, e) ==
    harness's fault, not the library's, and is reported as such *)
 Precond(pre, e) ==
   LET a == e.args  K == pre.kids IN
-  CASE e.op = "add_child"     -> CanAttach(K, a[1], a[2]) /\ (a[3] = NOIDX \/ a[3] \in 0..Len(K[a[1]]))
+  CASE e.op = "add_child"     -> CanAttach(K, a[1], a[2])            \* any integer position: Steps!PyPos gives list.insert's meaning
     [] e.op = "replace_child" -> ((a[2] = a[3] /\ Has(K[a[1]], a[2])) \/ (CanAttach(K, a[1], a[3]) /\ a[2] # a[3]))
                                  /\ (B(a[4]) /\ Has(K[a[1]], a[2]) => Desc(K, a[2]) \subseteq pre.store)
     [] e.op = "delete"        -> a[1] \in pre.store /\ (B(a[2]) => Desc(K, a[1]) \subseteq pre.store)
